@@ -113,6 +113,7 @@ type Cfg struct {
 	Sort          bool     `json:"sort"`
 	Separate      bool     `json:"separate"` // separate target package
 	ImportOverride bool    `json:"importoverride"`
+	DottedImport   bool    `json:"dottedimport"` // the struct package lives at an import path whose last element has a dot (types.v1)
 	Exclude       []string `json:"exclude"`
 	Required      []string `json:"required"`
 	Computed      []string `json:"computed"`
